@@ -162,9 +162,16 @@ func genC06(rng *rand.Rand, n int, emit func(Case), dist map[string]int) {
 				}
 			case 7, 8:
 				w.accept = acc
-				if kind == 7 {
+				switch helper := rng.Intn(6); { // (XMLBlob and JSONP write in several pieces: not single-write helpers)
+				case kind == 7 && helper < 3:
 					c.String(code, strings.Repeat("s", size))
-				} else {
+				case helper == 3:
+					c.HTML(code, strings.Repeat("h", size))
+				case helper == 4:
+					c.HTMLBlob(code, make([]byte, size))
+				case helper == 5:
+					c.JSONBlob(code, make([]byte, size))
+				default:
 					c.Blob(code, "application/octet-stream", make([]byte, size))
 				}
 				ops = append(ops, L(I(6), I(code), I(bodyK(size))))
